@@ -248,7 +248,7 @@ def binop(interp, op, a, b):
     if isinstance(a, VObj):
         # user-defined operator (`__or__`, `__add__` ...) of a repository class: dispatch to the method, as Python does
         dunder = {ast.BitOr: "__or__", ast.BitAnd: "__and__", ast.Add: "__add__", ast.Sub: "__sub__", ast.Mult: "__mul__"}.get(type(op))
-        if dunder and a.cls.find_method(dunder):
+        if dunder and (a.cls.find_method(dunder) or interp.reg.nominal_methods.get(a.cls.qualname, {}).get(dunder)):
             return interp.call(interp.getattr(a, dunder), [b], {})
     if not is_sym(a) and not is_sym(b) and not isinstance(a, (SymSeq,)) and not isinstance(b, (SymSeq,)):
         return native_binop(interp, op, a, b)
